@@ -217,11 +217,69 @@ PERSIST_HARNESSES = [
 ]
 
 
+def retried_unit_rolls_back(F):
+    """Whatever WalWriter::append / append_batch hand to WalErrorHandler::write_with_retry is re-run after a failure; a failed
+    attempt may have left part of a frame in the file, so the *retried unit itself* must restore the stable offset before it
+    returns its error — otherwise the next attempt appends a whole frame behind the fragment and an acknowledged write is
+    unreadable after restart.  Decided on the call graph below the retried closure (WalWriter methods only, depth <= 3):
+    some function there calls rollback_to_stable_state / rollback_to_offset (reachability by z3), independent of helper names."""
+    out = []
+    for owner in ("append", "append_batch"):
+        parent = P + "WalWriter::" + owner
+        closures = [n for n in F if n.startswith(parent + "::{closure#") and n.count("{closure") == 1]
+        units = []
+        for c in closures:
+            fn = F[c]
+            if any(b.kind == "call" and re.search(r"= WalWriter::\w+\(", b.term or "") for b in fn.blocks.values() if not b.cleanup):
+                units.append(c)
+        pf = FnCheck(F, parent)
+        if pf.fn is None:
+            out.append(pf.missing())
+            continue
+        if pf.count(call(r"= WalErrorHandler::write_with_retry::", name="write_with_retry")) == 0:
+            out.append(Result("inconclusive", "%s no longer goes through write_with_retry" % parent))
+            continue
+        if not units:
+            out.append(Result("inconclusive", "no retried closure calling a WalWriter method found under %s" % parent))
+            continue
+        for c in units:
+            seen, frontier, found = set(), [c], None
+            for _depth in range(4):
+                nxt = []
+                for name in frontier:
+                    fn = F.get(name)
+                    if fn is None or name in seen:
+                        continue
+                    seen.add(name)
+                    for b in fn.blocks.values():
+                        if b.cleanup or b.kind != "call":
+                            continue
+                        m = re.search(r"= WalWriter::(\w+)\(", b.term or "")
+                        if not m:
+                            continue
+                        if m.group(1) in ("rollback_to_stable_state", "rollback_to_offset"):
+                            found = found or name
+                        else:
+                            nxt.append(P + "WalWriter::" + m.group(1))
+                frontier = nxt
+            if found is None:
+                out.append(Result("violated", "the unit retried by WalWriter::%s (%s -> %s) never restores the stable offset: a short write followed by a successful retry leaves a frame fragment in front of the acknowledged "
+                                  "entry (strict restart refuses the segment, best-effort drops the entry and everything after it)" % (owner, c.split("::")[-1], ", ".join(sorted(x.split("::")[-1] for x in seen if x != c)) or "?"),
+                                  sample={"fn": c, "kind": "CALLGRAPH", "visited": sorted(x.split("::", 1)[-1] for x in seen)}))
+            else:
+                r = FnCheck(F, found).reachable(call(r"= WalWriter::rollback_to_(stable_state|offset)\(", name="rollback_to_stable_state"))
+                r.detail = "retried unit of %s restores the stable state in %s: %s" % (owner, found.split("::")[-1], r.detail)
+                out.append(r)
+    return out
+
+
 def _bulk_every_item(F):
     from props.C15 import bulk_load_every_item
     return bulk_load_every_item(F)
 
 
+MOS.append(MO("O3.6/retried_unit", "WalWriter::append / append_batch: the closure re-run by write_with_retry restores the stable offset itself (some WalWriter method below it calls rollback_to_stable_state), so a retry never appends behind a frame fragment",
+              retried_unit_rolls_back, functions=[("persistence.rs", "append"), ("persistence.rs", "append_batch"), ("persistence.rs", "write_with_retry")], role="retry-without-rollback"))
 MOS.append(MO("O3.5/bulk_load_every_item", "TieredEngine::bulk_load_cold_tier: a refused item of a batch affects no other item — every item reaches HnswBackend::insert on its own and the counters follow the insert's result (same obligation as C15 O15.8)",
               _bulk_every_item, functions=[("tiered_engine.rs", "bulk_load_cold_tier")]))
 
